@@ -179,6 +179,32 @@ def run(ctx):
                 (strip(a).get('name') or '').startswith(('ManifestParser::', 'Parser::', 'Lexer::Read'))), False)
             blk = f.blocks[e['_b']]['ev'][:e['_i']]
             lex = any(x['k'] == 'call' and x.get('name') == 'Lexer::Error' for x in blk)
+            if not (fwd or lex):
+                # the same read over paths (the failing callee may be one of several a merged helper forwards): no way
+                # from the entry to this return avoids both a Lexer::Error call and a branch taken because a fallible
+                # callee - or a value that only ever holds the result of one - reported failure
+                def failing_call(a):
+                    a = strip(a)
+                    return isinstance(a, dict) and a.get('k') == 'call' and (
+                        fallible(prog, a.get('name'), None) is not None or
+                        (a.get('name') or '').startswith(('ManifestParser::', 'Parser::', 'Lexer::Read', 'Lexer::Error')))
+
+                def failure_edge(b, i, f=f):
+                    for k, pol, a in f.edge_facts(b, i, all=True):
+                        if pol is not False:
+                            continue
+                        if failing_call(a):
+                            return True
+                        sa = strip(a)
+                        if isinstance(sa, dict) and sa.get('k') == 'var' and sa.get('vk') == 'local':
+                            os_ = origins(f, sa)
+                            if os_ and all(failing_call(o) or const_value(o) == 0 for o in os_) and any(failing_call(o) for o in os_):
+                                return True
+                    return False
+                r = f.find_path(None, lambda x: x is e, from_succ=f.entry, sensitive=False,
+                                is_blocker=lambda x: x['k'] == 'call' and x.get('name') == 'Lexer::Error',
+                                edge_ok=lambda b, i, s_: not failure_edge(b, i))
+                fwd = r is None
             ctx.check('C12.E1', fwd or lex, f.name, 'bare-failure-return', f.where(e),
                       '`return false` in %s forwards a failed callee or follows Lexer::Error' % f.name)
     rm = prog.fn('real_main')
